@@ -20,7 +20,7 @@ import (
 // scenario it was executing is reported as `hang 0 livelock(...)`; later scenarios are not run.
 const (
 	noProgressSeconds       = 12  // a timed scenario normally takes milliseconds
-	noProgressSecondsStress = 600 // `stress` lines run thousands of rounds with real goroutines
+	noProgressSecondsStress = 240 // `stress` lines run thousands of rounds with real goroutines
 )
 
 func realNow() int64 {
